@@ -5,9 +5,11 @@
 //! * `corpus`   - `#[derive(SystemData)]` inputs whose *expanded impls* are analysed by the C06 rules
 //! * `positive` - one matching construct for every zero-count rule ("no catch_unwind in the crate", ...);
 //!                the same scanner must find it here on every run, or the rule is broken
+//! * `equiv`    - pairs of equivalent / inequivalent spellings: self-test of the structured evaluation (selftest/engine_equiv.py)
 //! * `witness`  - compile-fail witnesses for type-level clauses, each paired with a compiling twin
 #![allow(dead_code, unused_variables, clippy::all)]
 
 pub mod corpus;
+pub mod equiv;
 pub mod positive;
 pub mod witness;
